@@ -109,6 +109,10 @@ pub struct Cfg {
     pub state_cap: usize,
     pub max_subset_pending: usize,
     pub wall_cap_s: f64,
+    /// global deadline of the whole check (all scripts)
+    pub deadline: Option<std::time::Instant>,
+    /// stop exploring a script as soon as a monitor reported something
+    pub stop_at_first_violation: bool,
 }
 
 impl Default for Cfg {
@@ -121,6 +125,8 @@ impl Default for Cfg {
             state_cap: 200_000,
             max_subset_pending: 4,
             wall_cap_s: 600.0,
+            deadline: None,
+            stop_at_first_violation: true,
         }
     }
 }
@@ -669,6 +675,16 @@ pub fn explore(world: World, cfg: &Cfg, mon: &mut dyn Monitor) -> Explored {
             stats.capped = Some(format!("wall cap {}s reached", cfg.wall_cap_s));
             break;
         }
+        if let Some(d) = cfg.deadline {
+            if std::time::Instant::now() > d {
+                stats.capped = Some("global time budget of the check reached".into());
+                break;
+            }
+        }
+        if cfg.stop_at_first_violation && !found.is_empty() {
+            stats.capped = Some("stopped after the first violation in this script".into());
+            break;
+        }
     }
     let _ = runs_seen;
     stats.states = table.len() as u64;
@@ -730,6 +746,21 @@ pub fn replay(world: World, path: &[Value], mon: &mut dyn Monitor) -> Result<(Ve
         viols.extend(mon.on_run(&mut cx, rid));
         viols.extend(mon.on_transition(&mut cx, &st, &act, rid, &post));
         produced.push(cx.runs[rid as usize].out);
+        if std::env::var("VERIF_DUMP").is_ok() {
+            let r = &cx.runs[rid as usize];
+            println!("--- step {k} {} ret={} {}", step, r.ret_code, r.error_message);
+            if let Some(d) = cx.dec(r.out) {
+                for (i, e) in d.trace.iter().enumerate() {
+                    let extra = match e {
+                        crate::data::Ent::Call(crate::data::CallSt::Exec { cid, kind, .. }) if *kind != 'u' => d.srv(cid).and_then(|a| a.value).unwrap_or_default(),
+                        crate::data::Ent::Call(crate::data::CallSt::Failed { cid }) => d.srv(cid).and_then(|a| a.value).unwrap_or_default(),
+                        crate::data::Ent::Canon(crate::data::CanonSt::Exec(cid)) => format!("{:?}", d.canon(cid).map(|c| c.elems.iter().map(|e| e.value.clone().unwrap_or_default()).collect::<Vec<_>>())),
+                        _ => String::new(),
+                    };
+                    println!("    {i:3} {e:?} {extra}");
+                }
+            }
+        }
         done.push((act, rid));
         st = post;
         let info = StateInfo { depth: k as u32 + 1, quiescent: false, nsucc: 0 };
